@@ -1,7 +1,22 @@
 // ================= ASSUMED: foreign-crate / std types the freezer holds but whose state no contract mentions ============
 #[verifier::external_body] #[verifier::reject_recursive_types(K)] #[verifier::reject_recursive_types(V)] pub struct LruCache<K, V> { _k: core::marker::PhantomData<(K, V)> }
+// the directory whose data files the handle cache holds (ghost representation invariant, see FreezerFiles::cache_ok)
+pub uninterp spec fn cache_base<K, V>(c: &LruCache<K, V>) -> int;
 impl<K, V> LruCache<K, V> {
     #[verifier::external_body] pub fn new(cap: usize) -> (r: Self) { unimplemented!() }
+}
+impl LruCache<FileId, File> {
+    // ASSUMED: a cached handle for id k is open on data file k of the cache's directory and shows that file's current content
+    #[verifier::external_body] pub fn get(&mut self, k: &FileId) -> (r: Option<&File>)
+        ensures cache_base(final(self)) == cache_base(old(self)),
+            r matches Some(f) ==> fview(f).id == dfile(cache_base(old(self)), *k) && fview(f).data == disk(fview(f).id),
+    { unimplemented!() }
+    #[verifier::external_body] pub fn put(&mut self, k: FileId, v: File) -> (r: Option<File>)
+        ensures cache_base(final(self)) == cache_base(old(self)),
+    { unimplemented!() }
+    #[verifier::external_body] pub fn pop(&mut self, k: &FileId) -> (r: Option<File>)
+        ensures cache_base(final(self)) == cache_base(old(self)),
+    { unimplemented!() }
 }
 // the item counter: an Arc<AtomicU64> mutated through &self -- NOT modelled (DESIGN.md C09 "stated gap"); only its
 // initial value is visible to contracts
@@ -10,7 +25,7 @@ pub enum Ordering { SeqCst }
 pub uninterp spec fn counter_init(a: &AtomicU64) -> u64;
 impl AtomicU64 {
     #[verifier::external_body] pub fn new(v: u64) -> (r: AtomicU64) ensures counter_init(&r) == v { unimplemented!() }
-    #[verifier::external_body] pub fn load(&self, o: Ordering) -> (r: u64) { unimplemented!() }
+    #[verifier::external_body] pub fn load(&self, o: Ordering) -> (r: u64) ensures r == counter_init(self) { unimplemented!() }
     #[verifier::external_body] pub fn fetch_add(&self, v: u64, o: Ordering) -> (r: u64) { unimplemented!() }
     #[verifier::external_body] pub fn store(&self, v: u64, o: Ordering) { unimplemented!() }
 }
@@ -18,6 +33,12 @@ impl AtomicU64 {
 #[verifier::external_body] pub struct SnappyDecoder { _x: u64 }
 #[verifier::external_body] pub struct SnapError { _x: u64 }
 pub uninterp spec fn snappy(d: Seq<u8>) -> Seq<u8>;
+pub uninterp spec fn unsnappy(d: Seq<u8>) -> Seq<u8>;
+impl SnappyDecoder {
+    #[verifier::external_body] pub fn new() -> SnappyDecoder { unimplemented!() }
+    #[verifier::external_body] pub fn decompress_vec(&mut self, d: &[u8]) -> (r: Result<Vec<u8>, SnapError>)
+        ensures r is Ok ==> r->Ok_0@ == unsnappy(d@) { unimplemented!() }
+}
 impl SnappyEncoder {
     #[verifier::external_body] pub fn new() -> SnappyEncoder { unimplemented!() }
     #[verifier::external_body] pub fn compress_vec(&mut self, d: &[u8]) -> (r: Result<Vec<u8>, SnapError>)
